@@ -15,6 +15,7 @@ import json
 from corr import exec_common as X
 from gen import operation as go
 from gen import schema as gs
+from gen import leading_node as LN
 
 PROPERTY = "C04"
 RULE = ("requests = (generated schema with all six kinds + wrappers + enum internals, generated VALID operation "
@@ -22,7 +23,9 @@ RULE = ("requests = (generated schema with all six kinds + wrappers + enum inter
         "abstract types, list fields, arguments as literals/variables], variable assignment, world seed); a request is "
         "distinct by (schema, document, variables, seed) and non-trivial when the response has >=2 keys or a nested "
         "object/list or >=1 field error; histories = random order of all requests of one Schema object + re-execution "
-        "of an earlier request at the end")
+        "of an earlier request at the end; PLUS a fixed block (corr/C04_runtimes.py: 8 documents x 6 worlds x "
+        "{graphql_blocking, process_graphql_query, py_gql.graphql on asyncio with coroutine resolvers completing in reverse / "
+        "mixed / hashed order}) compared with the specification, deterministic (reads no randomness)")
 ASSUMPTIONS = [
     "argument coercion: the Lean side coerces the argument NODES itself with C07's model (ExecArgs.lean, Coerce.lean) and renders the "
     "kwargs canonically; the Python reference spec still reads the table computed by the real coerce_argument_values (C07 owns its correctness)",
@@ -31,6 +34,8 @@ ASSUMPTIONS = [
     "a document that makes validate_ast raise never reaches execution (none does on /repo HEAD after fixes V1/V2/V7; C05 reports such documents)",
 ]
 TRUSTED = [
+    "corr/C04_runtimes.py: asyncio completion order is made a function of the request with `await asyncio.sleep(0)` repeated k times "
+    "(FIFO ready queue of the event loop); all completion orders / thread pools are C08's",
     "corr/exec_common.py: world function (mirrored by PyGqlModel/World.lean), AST->JSON converter, canonicalisation, Python reference of the spec algorithm",
     "gen/operation.py: generator of valid operations (every generated document is re-validated with the real validate_ast)",
     "Props/C04_history.lean models the Document store as never written by a request; the tie to the code is the oracle of "
@@ -233,6 +238,12 @@ def run(ctx):
     per_schema = ctx.n(22, 40)
     use_lean = ctx.model_ok and ctx.driver.available()
     lean_cases = []
+    built = []
+    # deterministic slice first (reads no randomness): the same fixed requests through process_graphql_query (generic
+    # Executor) and through py_gql.graphql on an asyncio loop with resolvers completing OUT OF DOCUMENT ORDER
+    from corr import C04_runtimes
+    C04_runtimes.run(ctx)
+    leading_node_class(ctx, None, lean_cases if use_lean else None)       # the fixed-schema part of the class, also first
     for si in range(n_schemas):
         if ctx.time_left() < 15:
             ctx.notes.append("stopped early at schema %d (time)" % si)
@@ -327,9 +338,11 @@ def run(ctx):
                 ctx.fail("history-dependence:fresh-schema:" + classify(fresh, c.impl),
                          "a fresh Schema object answers differently from one that served other requests",
                          c.replay_data({"used": c.impl, "fresh": fresh}), kind="property")
+        built.append((schema, holder, dump, sdl, enum_kind, desc))
         if use_lean and len(lean_cases) >= 150:
             flush_lean(ctx, lean_cases)
             lean_cases = []
+    leading_node_class(ctx, built, lean_cases if use_lean else None)
     if use_lean and lean_cases:
         flush_lean(ctx, lean_cases)
     if not use_lean:
@@ -340,6 +353,54 @@ def run(ctx):
     shared_document_fixed(ctx)
     from corr import C04_default
     C04_default.run(ctx)       # plain data + the real default_resolver
+
+
+def leading_node_class(ctx, built, lean_cases):
+    """generated CLASS (gen/leading_node.py): one field node heading two DIFFERENT merged node lists of a response key in one
+    request - on a fixed schema (named probe) and on every generated schema of this run, under fixed worlds; compared with
+    the specification like every other request. Reads no randomness."""
+    todo = []
+    if built is None:
+        try:
+            schema, holder, dump = X.build(LN.FIXED_SDL, 0)
+            todo += [(schema, holder, dump, LN.FIXED_SDL, 0, d, LN.FIXED_SEEDS) for d in LN.FIXED_DOCS]
+        except Exception as e:  # noqa
+            ctx.stat("schema-build-failed:" + type(e).__name__)
+    for schema, holder, dump, sdl, enum_kind, desc in built or []:
+        todo += [(schema, holder, dump, sdl, enum_kind, d, [0, 1, 2]) for d in LN.leading_node_documents(desc)]
+    for schema, holder, dump, sdl, enum_kind, (label, text, vs), seeds in todo:
+        if ctx.time_left() < 12:
+            ctx.notes.append("leading-node class stopped early (time)")
+            return
+        ctx.stat("class:" + label)
+        for seed in seeds:
+            c = Case()
+            c.sdl, c.enum_kind, c.text, c.variables, c.opname = sdl, enum_kind, text, vs, None
+            c.seed, c.mode, c.features = seed, 0, {label}
+            c.impl = c.docj = c.coerced = None
+            try:
+                st = run_one(schema, holder, dump, c)
+            except Exception as e:  # noqa
+                st = "harness-error:" + type(e).__name__
+            if st != "ok":
+                ctx.stat("class:%s:%s" % (label, st))
+                break
+            ctx.count()
+            if nontrivial(c.impl):
+                ctx.nontrivial((sdl, c.text, "{}", c.seed, 0))
+            if "internal" in c.impl:
+                ctx.fail("internal-exception-on-validated-operation:%s:%s" % (c.impl["internal"], label),
+                         "a validated operation under a typed world raised %s" % c.impl["internal"],
+                         c.replay_data({"impl": c.impl, "label": label}), kind="property")
+                break
+            spec = X.py_spec_run(dump, c.docj, c.opname, c.coerced, X.World(dump, c.seed, c.mode))
+            if not X.results_agree(c.impl, spec, dedup_locs=True):
+                ctx.fail("exec-differs-from-spec:%s:%s" % (classify(c.impl, spec), label),
+                         "response of the real executor differs from the specification's algorithm (class %s)" % label,
+                         c.replay_data({"impl": c.impl, "spec": spec, "oracle": "python-reference", "label": label}), kind="property")
+                break
+            if lean_cases is not None:
+                lean_cases.append((dump, c))
 
 
 def disable_introspection_probe(ctx):
@@ -506,6 +567,9 @@ def run_corpus(ctx):
 
 def replay(ctx, data, quiet=False):
     inp = data.get("input", data)
+    if inp.get("part") == "runtimes":
+        from corr import C04_runtimes
+        return C04_runtimes.replay(ctx, inp)
     if inp.get("stream") == "disable-introspection":
         class _C3:
             def __init__(self):
